@@ -48,6 +48,8 @@ typedef struct {
 	nng_ctx         ctx;              // one extra context (req, rep, sub, surveyor, respondent)
 	bool            have_ctx;
 	bool            send_tried_since_recv; // a socket send was attempted since the last successful socket receive
+	size_t          msg_size;         // size of locally made messages (0: 32 bytes)
+	bool            confirm_pre;      // a readable send descriptor is confirmed BEFORE the attempt (see probe)
 	bool            keep_stash;       // raw sends echo a copy of the stashed message, never the original
 	vf_rng         *r;
 	char            name[32];
@@ -97,7 +99,7 @@ static nng_msg *
 fresh_msg(cx_t *c)
 {
 	nng_msg *m;
-	size_t   sz = 32;
+	size_t   sz = c->msg_size ? c->msg_size : 32;
 	if (nng_msg_alloc(&m, sz) != 0) vf_harness_fail("alloc");
 	vf_body_make(nng_msg_body(m), sz, 15, c->seq++);
 	return m;
@@ -373,6 +375,18 @@ probe(cx_t *c, bool send, int form, const char *after)
 	}
 	int pre = -1;
 	if (!ctxf) pre = send ? (c->have_sfd ? fd_readable(c->sfd) : -1) : (c->have_rfd ? fd_readable(c->rfd) : -1);
+	bool pre_stable = false;
+	if (c->confirm_pre && send && !ctxf && pre == 1) {
+		// Where a refused attempt itself changes the state (a REP send
+		// that fails consumes the reply state and clears the descriptor),
+		// "the descriptor STAYS readable" cannot be established afterwards:
+		// it is established before - readable at two quiescent points
+		// 200 ms apart, with nothing done in between.
+		vf_msleep(200);
+		if (!settle(c)) { vf_stat("not_quiescent", 1); nng_msg_free(m); return -1; }
+		pre        = fd_readable(c->sfd);
+		pre_stable = pre == 1;
+	}
 	bool lazy = false;
 	if (!ctxf && pre >= 0 && (send ? c->lazy_s : c->lazy_r)) {
 		// first look at a descriptor that was created after the history so far
@@ -444,6 +458,12 @@ probe(cx_t *c, bool send, int form, const char *after)
 	if (rv != NNG_EAGAIN) {
 		// a state error etc.: failed at once, the message is ours again
 		if (send) nng_msg_free(m);
+		return rv;
+	}
+	if (pre_stable) {
+		snprintf(key, sizeof(key), "C15/readable-but-eagain/%s.%s", c->name, op);
+		vf_violation(key, "%s: %s poll fd readable at two quiescent points 200 ms apart, then NONBLOCK %s (%s form) returns NNG_EAGAIN (after %s)", c->name, op, verb, form_names[form], after);
+		nng_msg_free(m);
 		return rv;
 	}
 	if (pre == 1) {
@@ -1119,6 +1139,75 @@ run_parked(long idx, vf_rng *r, int pi, bool raw, int tran, int disruption, int 
 	vf_nng_init(4, 2, 2);
 }
 
+// Back pressure on the reply path of a REP socket.  The peer is a raw REQ
+// that sends one request per round and never reads a reply, so after a few
+// replies (small over inproc, which buffers nothing; 512 kB over tcp, until
+// the kernel's buffers are full) the previous reply is still in flight on the
+// pipe when the next request - already parked in the socket - is received
+// (NONBLOCK, by the socket or by the extra context) and the next reply is
+// tried.  Judged by the usual clauses; the send descriptor is confirmed
+// before the attempt (see probe).
+static void
+run_reply_busy(long idx, vf_rng *r, int tran, int target)
+{
+	cx_t       c;
+	nng_socket xreq;
+	int        rv, pi = 0;
+	char       after[64];
+	bool       onctx     = target == 1;
+	int        busy_at   = -1;
+	int        cap       = tran == VF_T_INPROC ? 12 : 48;
+	while (strcmp(vf_protos[pi].name, "rep") != 0) pi++;
+	open_local(&c, pi, false, tran, r);
+	vf_case_begin(idx, "parked proto=rep tran=%s disruption=reply-path-busy form=%s", vf_tran_names[tran], onctx ? "ctx" : "socket");
+	fetch_fds(&c, false);
+	if ((rv = nng_req0_open_raw(&xreq)) != 0) vf_harness_fail("xreq open: %s", nng_strerror(rv));
+	nng_socket_set_ms(xreq, NNG_OPT_SENDTIMEO, 2000);
+	nng_socket_set_int(xreq, NNG_OPT_RECVBUF, 1);
+	if ((rv = nng_dial(xreq, c.durl, NULL, 0)) != 0) vf_harness_fail("xreq dial: %s", nng_strerror(rv));
+	for (int i = 0; i < 4000 && (vf_pipe_count(c.s) < 1 || vf_pipe_count(xreq) < 1); i++) vf_msleep(1);
+	c.confirm_pre = true;
+	c.msg_size    = tran == VF_T_INPROC ? 32 : 512 * 1024;
+	for (int round = 0; round < cap && (busy_at < 0 || round < busy_at + 4); round++) {
+		nng_msg *m;
+		if (nng_msg_alloc(&m, 0) != 0) vf_harness_fail("alloc");
+		nng_msg_header_append_u32(m, 0x80000000u | (uint32_t) (round + 1));
+		nng_msg_append(m, "ping", 5);
+		if (nng_sendmsg(xreq, m, 0) != 0) { nng_msg_free(m); break; }
+		settle(&c); // the request now waits in the REP socket
+		snprintf(after, sizeof(after), "reply-path-%s-request", busy_at < 0 ? "open" : "busy");
+		int rr = probe(&c, false, onctx ? (vf_chance(r, 1, 2) ? F_CTX : F_CTXAIO) : sock_form(&c), after);
+		if (rr != 0) vf_stat("reply_busy_request_not_received", 1);
+		if (busy_at >= 0 && tran != VF_T_INPROC) vf_msleep(250); // delayed ACKs have landed
+		snprintf(after, sizeof(after), "reply-path-%s-recv%s", busy_at < 0 ? "open" : "busy", onctx ? "-ctx" : "");
+		int rs = probe(&c, true, onctx ? (vf_chance(r, 1, 2) ? F_CTX : F_CTXAIO) : sock_form(&c), after);
+		if (rr == 0 && rs == NNG_EAGAIN) {
+			// refused with a request in hand: the previous reply is in flight
+			if (busy_at < 0) busy_at = round;
+			vf_stat("reply_probes_with_previous_reply_in_flight", 1);
+			vf_class("reply-busy/%s/%s/round%d", vf_tran_names[tran], onctx ? "ctx" : "socket", round - busy_at);
+		}
+		// the other pair of probes (context activity must not leave the
+		// socket's descriptors stale, and the other way round)
+		if (onctx) { probe_recv(&c, after); probe_send(&c, after); }
+		else { probe_ctx(&c, false, after); probe_ctx(&c, true, after); }
+		vf_watchdog(60);
+	}
+	if (busy_at >= 0) vf_stat("reply_busy_cases_reached", 1);
+	c.msg_size    = 0;
+	c.confirm_pre = false;
+	// the peer goes away with the replies unread
+	nng_socket_close(xreq);
+	vf_msleep(5);
+	probe_send(&c, "reply-path-busy-peer-closed");
+	probe_recv(&c, "reply-path-busy-peer-closed");
+	close_all(&c);
+	vf_stat("cases", 1);
+	vf_stat("parked_cases", 1);
+	vf_nng_fini("C15");
+	vf_nng_init(4, 2, 2);
+}
+
 int
 main(int argc, char **argv)
 {
@@ -1154,6 +1243,15 @@ main(int argc, char **argv)
 							run_parked(pidx, &r, pi, raw != 0, t == 0 ? VF_T_INPROC : VF_T_TCP, d, tg);
 						}
 					}
+				}
+			}
+		}
+		for (int t = 0; t < 2; t++) {
+			for (int tg = 0; tg < 2; tg++) {
+				for (int rep = 0; rep < 2; rep++, pidx++) {
+					if ((pidx % vf_nshards) != vf_shard || !vf_want_case(pidx)) continue;
+					vf_rng_seed(&r, vf_seed, (uint64_t) pidx);
+					run_reply_busy(pidx, &r, t == 0 ? VF_T_INPROC : VF_T_TCP, tg);
 				}
 			}
 		}
